@@ -8,7 +8,10 @@
 (* files (A proto3; B proto3 importing A, other Go package; C proto3 in    *)
 (* A's Go package; D proto2; E proto3 unrelated; F proto3 named by an      *)
 (* absolute path; G, H proto3 in A's Go package, both importing E, H       *)
-(* without using it, G with a descriptor above 8 KiB).                     *)
+(* without using it, G with a descriptor above 8 KiB; X proto3 in A's Go   *)
+(* package declaring only an alias enum that A and C use; I proto3 with    *)
+(* only a service whose rpc types live in two imported Go packages of the  *)
+(* same base name).                                                        *)
 (* Inside the generator two Go maps are ranged (the feature map and the    *)
 (* message index); their iteration order is the nondeterministic variable  *)
 (* `iter`.  Response: fatal (process exits non-zero: request-level error), *)
@@ -18,8 +21,8 @@
 (***************************************************************************)
 EXTENDS Naturals, Sequences, FiniteSets, TLC, Json, IOUtils
 
-Files == {"A", "B", "C", "D", "E", "F", "G", "H"}
-Proto3 == {"A", "B", "C", "E", "F", "G", "H"}
+Files == {"A", "B", "C", "D", "E", "F", "G", "H", "I", "X"}
+Proto3 == {"A", "B", "C", "E", "F", "G", "H", "I", "X"}
 FeatureParams == {"absent", "all", "fast+protoc", "protoc+fast", "fast", "protoc", "unknown", "fast+unknown", "unknown+fast", "empty",
                   "all+unknown", "unknown+all", "fast+fast", "all+fast", "Fast"}
 PathsParams == {"absent", "import", "source_relative", "bogus"}
